@@ -322,8 +322,22 @@ def c19(ctx):
         ctx.require(c)
 
 
+def model_traces(ctx):
+    """impl -> spec: models built from arbitrary floats (random float tables with zeros, denormals, tiny tails and huge dynamic
+    range in f32/f64; Gaussian, Cauchy, Laplace, Exponential, Binomial with parameters over 600 orders of magnitude) are recorded
+    (symbol table, encoder view of every symbol, decoder view at boundary quantiles, sibling representations) and TLC checks
+    every record against the contract of FixedPoint.tla (TraceModels.tla)."""
+    n = 600 if ctx.tier == "thorough" else 80
+    trace = os.path.join(ctx.work, "models.ndjson")
+    ctx.vh("drive_models", extra=["--n", str(n), "--trace", trace])
+    ctx.validate_trace("TraceModels", trace, invariants=["AllOK"], what="model records")
+    for c in ("tiny_tail", "denormals", "zeros", "dynamic_range", "Gaussian", "Cauchy", "Binomial", "Gaussian_i8_full_range"):
+        ctx.require(c)
+
+
 @prop("C03")
 def c03(ctx):
+    model_traces(ctx)
     model_cases(ctx, "fixed", "c03", fixed_cfgs(ctx))
     model_cases(ctx, "uniform", "c03", uniform_cfgs(ctx))
     model_cases(ctx, "fast", "c03", fast_cfgs(ctx))
@@ -335,6 +349,7 @@ def c03(ctx):
 
 @prop("C05")
 def c05(ctx):
+    model_traces(ctx)
     model_cases(ctx, "fixed", "c05", fixed_cfgs(ctx))
     model_cases(ctx, "uniform", "c05", uniform_cfgs(ctx))
     model_cases(ctx, "fast", "c05", fast_cfgs(ctx))
